@@ -30,7 +30,7 @@ def run_seed(sdir):
 
 def main():
     seeds = sorted(glob.glob(os.path.join(ROOT, 'seeded', 'C*-*')))
-    with ThreadPoolExecutor(max_workers=8) as ex:
+    with ThreadPoolExecutor(max_workers=14) as ex:
         results = dict(ex.map(run_seed, seeds))
     lines = ['# Seeded changes vs checks', '',
              'Each row: a change written by an independent sub-agent (given only the property text), confirmed to keep the suite green',
